@@ -42,6 +42,11 @@ def run(ctx: Context) -> None:
     _share(ctx, _c08, {'R08.1', 'R08.2', 'R08.7'}, 'R09.8')
     from .common import adopt_foundations as _adopt
     _adopt(ctx, 'R09.9', ['masks', 'topology'], floor=60)
+    ctx.rule('R09.13', "the marker for missing entries in re-indexed tables lies above every index, and a supplied table is set aside exactly when its dimensions are not the expected pair", floor=5)
+    with ctx.section('R09.13'):
+        from . import infra as _infra913
+        _infra913.mesh_fill_value(ctx, 'R09.13')
+        _infra913.mesh_table_dimension_tests(ctx, 'R09.13')
     ctx.rule('R09.12', "update_connectivity refuses a table only when it does not have the primary dimension at all (a table stored the other way round is transposed, not refused)", floor=1)
     with ctx.section('R09.12'):
         from . import infra as _infra912
@@ -483,6 +488,8 @@ _U = 'src/emsarray/conventions/ugrid.py'
 _G = 'src/emsarray/conventions/grid.py'
 _B = 'src/emsarray/conventions/_base.py'
 VARIANTS = [
+    V('C09', 'fill-value-among-the-indexes', 'src/emsarray/conventions/ugrid.py', "        return int('9' * (len(str(max_count)) + 1))", "        return int('9' * (len(str(max_count)) - 1))", 'R09.13'),
+    V('C09', 'benign-fill-value-one-digit-more', 'src/emsarray/conventions/ugrid.py', "        return int('9' * (len(str(max_count)) + 1))", "        return int('9' * (len(str(max_count)) + 2))", None),
     V('C09', 'face-edge-primary-swapped', _U, "                new_face_indexes, new_edge_indexes,\n                primary_dimension=topology.face_dimension, fill_value=new_fill_value))", "                new_face_indexes, new_edge_indexes,\n                primary_dimension=topology.edge_dimension, fill_value=new_fill_value))", 'R09.1'),
     V('C09', 'edge-node-columns-faces', _U, "                new_edge_indexes, new_node_indexes,", "                new_edge_indexes, new_face_indexes,", 'R09.1'),
     V('C09', 'face-face-array-mismatch', _U, "                topology.face_face_connectivity, topology.face_face_array,", "                topology.face_face_connectivity, topology.face_edge_array,", 'R09.1'),
